@@ -5,14 +5,21 @@ CORE = ["GenConst", "GenCursor", "GenLabels", "GenNames"]
 
 DEC = CORE + ["GenHeader", "GenTypes", "GenTracker", "GenReader", "GenRData"]
 
+NETA = ["GenConst", "GenQuery", "GenWriter"]
+
 PROPS = {
+    "C12": {"level": "exploration", "areas": NETA, "theorems": [], "streams": ["udpfilter"]},
+    "C13": {"level": "exploration", "areas": NETA, "theorems": [], "streams": ["strategy"]},
+    "C14": {"level": "exploration", "areas": NETA, "theorems": [], "streams": ["tcpframe"]},
+    "C15": {"level": "exploration", "areas": NETA, "theorems": [], "streams": ["timing"]},
+    "C16": {"level": "exploration", "areas": NETA, "theorems": [], "streams": ["history"]},
     "C20": {"level": "other", "areas": DEC, "theorems": ["C20_typed_reads_fixed_size_partial"], "streams": ["alloc"],
             "explanation": "Partial by nature: heap allocation happens inside rustc-generated code, std and arrayvec, which the Gallina model does not contain. Rocq carries the classification of the allocation-free API and the theorem that its two typed reads (A/AAAA) can only return fixed-size values; the decisive evidence is a per-call measurement with a counting global allocator over conforming scripts restricted to that API (all error paths included, driven by the same generated/mutated/random messages as C01), with allocating calls as positive controls."},
     "C01": {"level": "proof", "areas": DEC, "theorems": ["C01_name_walk_total", "C01_name_walk_bound", "C01_never_out_of_bounds", "C01_cursor_total"], "streams": ["scripts", "decode"]},
     "C04": {"level": "proof", "areas": DEC, "theorems": ["C04_exact", "C04_noninterference", "C04_raw"], "streams": ["rdlen"]},
     "C05": {"level": "proof", "areas": CORE + ["GenWriter"], "theorems": ["C05_parse_iff_valid", "C05_from_str", "C05_decoded_valid"], "streams": ["nametext"]},
     "C18": {"level": "proof", "areas": ["GenConst", "GenNames"], "theorems": ["C18_eq_iff_cmp", "C18_eq_is_fold", "C18_cmp_is_lex", "C18_cmp_antisym", "C18_cmp_trans", "C18_hash", "C18_hash_is_fold"], "streams": ["nameord"]},
-    "C11": {"level": "proof", "areas": CORE + ["GenWriter", "GenQuery", "GenHeader"], "theorems": ["C11_no_oob_write", "C11_refuse_invalid", "C11_name_encoder_sound", "C11_std_async_same", "C11_example"], "streams": ["wire"]},
+    "C11": {"level": "proof", "areas": CORE + ["GenWriter", "GenQuery", "GenHeader"], "theorems": ["C11_no_oob_write", "C11_refuse_invalid", "C11_name_encoder_sound", "C11_std_async_same", "C11_example"], "streams": ["wire", "netwire"]},
     "C02": {"level": "proof", "areas": DEC + ["GenHeader"], "theorems": ["C02_header_fields", "C02_flags", "C02_opt_fields", "C02_opt_do"], "streams": ["roundtrip"]},
     "C06": {"level": "exploration", "areas": DEC + ["GenHeader"], "theorems": [], "streams": ["rrset"]},
     "C07": {"level": "proof", "areas": DEC + ["GenHeader"], "theorems": ["C07_gates_sound", "C07_gate_errors", "C07_extended_rcode"], "streams": ["rrset", "decode"]},
